@@ -38,18 +38,18 @@ PROPS = {
                 gen=parse_family('C04', 3000, 40000), flavours=['c'],
                 rule='random grammars with costs 0-5 (ties included); sentences <= 7 tokens; cost flag on, one_parse in {0,1}, parse_free given or NULL; denoted set vs argmin of total cost over all translations, every cost field vs the additive law',
                 assumptions=COMMON_ASSUME + ['prune theorems are about the Lean pruning model of a forest (Spec/Forest.lean); find_minimal_translation itself (prune_to_minimal with the sign of the cost field as visited flag and the memo table of alternative chains, traverse_pruned_translation, the freeing loop) is modelled step for step on the heap of the make_parse model (Model/PruneC.lean) and proved to denote exactly prune of the unfolded forest, to restore every cost field, and to free exactly the cells that became unreachable, each once (pruneC_denote, pruneC_minimal_all/one, pruneC_costs_restored, pruneC_frees, pruneC_memo_sound) under the heap well-formedness WfHeap, which is proved for every heap the make_parse model builds on the parse list of an accepted input (makeParse_heap_wf; acyclicity from a rank by span length and unit steps); accepted_cost_parse composes the chain for every accepted grammar and sentence: every tree of the forest is a translation, the pruned result denotes exactly the minimal-cost trees of the forest make_parse built (not of all translations: D9) with accumulated cost fields, and the freed cells are exactly those that became unreachable, each once; accepted_cost_parse_total removes the last hypothesis (the all-parses run of the make_parse model always ends: makeParse_all_total); the tie runs both models on the dumped parse list and compares the exported forest and the number of freed blocks']),
-    'C06': dict(level='proof', theorem_modules=['C06', 'C01'], min_theorems=12, tags=['C06'], crash_counts=True,
+    'C06': dict(level='proof', theorem_modules=['C06', 'C01', 'RecoveryAccepted'], min_theorems=12, tags=['C06'], crash_counts=True,
                 gen=parse_family('C06', 3000, 40000, maxlen=9), flavours=['c'],
                 rule='grammars with and without error rules; non-sentences (mutated sentences, prefixes, random strings); recovery off (exact argument tuple) and on (well-formedness of every callback, strictly increasing error tokens, first error token = model)',
-                assumptions=COMMON_ASSUME + ['firstError_iff_viable / firstError2_iff_viable need every nonterminal productive (strict grammars); callback theorems (calls_wf, calls_increasing) hold under r.ok (search finished within fuel)']),
-    'C07': dict(level='proof', theorem_modules=['C07', 'C06', 'C02', 'RecoveredParse'], min_theorems=12, tags=['C07'], crash_counts=True,
+                assumptions=COMMON_ASSUME + ['firstError_iff_viable / firstError2_iff_viable need every nonterminal productive (strict grammars); callback theorems hold for every accepted grammar and input from the explicit fuel recoveryFuel on (Props/RecoveryAccepted: accepted_calls_wf, accepted_first_call)']),
+    'C07': dict(level='proof', theorem_modules=['C07', 'C06', 'C02', 'RecoveredParse', 'RecoveryAccepted'], min_theorems=12, tags=['C07'], crash_counts=True,
                 gen=lambda seed, tier: parse_family('C07', 3000, 40000, maxlen=9)(seed, tier) + [c for c in long_c09_cases(seed, 'quick') if 'farback' in c[0]], flavours=['c'],
                 rule='grammars with 0..3 error rules, non-sentences <= 9 tokens, recovery_match 1..5, one/all parses, lookahead 0-2: return code, non-NULL tree, tree vs translations of the repaired input (read off the model parse list), ignored-token accounting, callbacks and final parse list vs the step-for-step recovery model',
                 assumptions=COMMON_ASSUME + ['the recovery search is proved to finish within recoveryFuel (exponential in the input length, finding D28) and recovered_parse_one / recovered_parse_all take that fuel; theorems with the hypothesis r.ok hold for any smaller fuel on which the search happened to finish', 'after a recovery the all-parses forest is sound but may be incomplete (finding D9), as without recovery']),
-    'C08': dict(level='proof', theorem_modules=['C08', 'C06'], min_theorems=4, tags=['C08'], crash_counts=True,
+    'C08': dict(level='proof', theorem_modules=['C08', 'C06', 'RecoveryAccepted'], min_theorems=4, tags=['C08'], crash_counts=True,
                 gen=parse_family('C08', 3000, 40000, maxlen=9), flavours=['c'],
                 rule='grammars with error rules, non-sentences <= 9 tokens, recovery_match 1..5, lookahead 0-2: the number of tokens the first callback reports ignored vs the minimum over all simple recoveries (back position with `. error` x forward skip) computed by brute force from the statement over the model sets',
-                assumptions=COMMON_ASSUME + ['recover_minimal is proved for the recovery model under r.ok (search finished within fuel); the oracle simpleRecoveryCosts is the property statement itself']),
+                assumptions=COMMON_ASSUME + ['recover_minimal is proved for the recovery model; accepted_recover_minimal removes the hypothesis r.ok for every accepted grammar from the explicit fuel recoveryFuel on; the oracle simpleRecoveryCosts is the property statement itself']),
     'C09': dict(level='proof', theorem_modules=['C09', 'C09Lookahead', 'C01', 'BuildSet2'], min_theorems=12, tags=['C09'], crash_counts=True,
                 gen=lambda seed, tier: parse_family('C09', 2400, 30000)(seed, tier) + long_c09_cases(seed, tier) +
                                        gen.gen_parse_cases(seed + 5, 3000 if tier == 'thorough' else 500, 'C09', maxlen=9, kind='recov-cache', force=dict(rec=1)) +
